@@ -90,7 +90,13 @@ type Factory struct {
 	Funcs map[string]*FuncDecl
 	// variable ranges (type facts)
 	VarLo, VarHi map[*Term]*big.Int
+	// definitional facts of auxiliary variables (emitted whenever the variable occurs in a query)
+	Defs     map[*Term][]*Term
+	defCache map[string][]*Term
 }
+
+// AddDef attaches a defining fact to an auxiliary variable.
+func (f *Factory) AddDef(v *Term, fact *Term) { f.Defs[v] = append(f.Defs[v], fact) }
 
 type FuncDecl struct {
 	Name string
@@ -100,7 +106,7 @@ type FuncDecl struct {
 
 func NewFactory() *Factory {
 	return &Factory{tab: map[string]*Term{}, Distribute: true, Funcs: map[string]*FuncDecl{},
-		VarLo: map[*Term]*big.Int{}, VarHi: map[*Term]*big.Int{}}
+		VarLo: map[*Term]*big.Int{}, VarHi: map[*Term]*big.Int{}, Defs: map[*Term][]*Term{}, defCache: map[string][]*Term{}}
 }
 
 func (f *Factory) intern(t *Term) *Term {
@@ -550,11 +556,56 @@ func (f *Factory) Eq(a, b *Term) *Term {
 		if b.Op == OIte && a.Op == OConst {
 			return f.Eq(b, a)
 		}
+		// bor(a,b) == 0  <=>  a == 0 && b == 0 ;  bxor(a,b) == 0 <=> a == b   (operands are non-negative W-bit values)
+		for i := 0; i < 2; i++ {
+			if b.Op == OConst && b.K.Sign() == 0 {
+				if a.Op == OBor {
+					return f.And(f.Eq(a.Args[0], b), f.Eq(a.Args[1], b))
+				}
+				if a.Op == OBxor {
+					return f.Eq(a.Args[0], a.Args[1])
+				}
+			}
+			a, b = b, a
+		}
+		if r, ok := f.liftIte2(a, b, func(x, y *Term) *Term { return f.Eq(x, y) }); ok {
+			return r
+		}
 	}
 	if a.id > b.id {
 		a, b = b, a
 	}
 	return f.intern(&Term{Op: OEq, Args: []*Term{a, b}, S: SBool})
+}
+
+// constLeaves reports whether t is a (nested) ite whose leaves are all constants.
+func constLeaves(t *Term, depth int) bool {
+	if t.Op == OConst {
+		return true
+	}
+	if t.Op == OIte && depth < 4 {
+		return constLeaves(t.Args[1], depth+1) && constLeaves(t.Args[2], depth+1)
+	}
+	return false
+}
+
+// mapLeaves applies fn to the constant leaves of an ite tree.
+func (f *Factory) mapLeaves(t *Term, fn func(*Term) *Term) *Term {
+	if t.Op == OIte {
+		return f.Ite(t.Args[0], f.mapLeaves(t.Args[1], fn), f.mapLeaves(t.Args[2], fn))
+	}
+	return fn(t)
+}
+
+// liftIte2: op(ite-with-const-leaves, const) -> ite(..., op(leaf,const))
+func (f *Factory) liftIte2(a, b *Term, op func(x, y *Term) *Term) (*Term, bool) {
+	if a.Op == OIte && b.Op == OConst && constLeaves(a, 0) {
+		return f.mapLeaves(a, func(l *Term) *Term { return op(l, b) }), true
+	}
+	if b.Op == OIte && a.Op == OConst && constLeaves(b, 0) {
+		return f.mapLeaves(b, func(l *Term) *Term { return op(a, l) }), true
+	}
+	return nil, false
 }
 
 func (f *Factory) Lt(a, b *Term) *Term {
@@ -563,6 +614,9 @@ func (f *Factory) Lt(a, b *Term) *Term {
 	}
 	if a == b {
 		return f.False()
+	}
+	if r, ok := f.liftIte2(a, b, func(x, y *Term) *Term { return f.Lt(x, y) }); ok {
+		return r
 	}
 	if lo1, hi1, ok1 := f.Range(a); ok1 {
 		if lo2, hi2, ok2 := f.Range(b); ok2 {
@@ -583,6 +637,9 @@ func (f *Factory) Le(a, b *Term) *Term {
 	}
 	if a == b {
 		return f.True()
+	}
+	if r, ok := f.liftIte2(a, b, func(x, y *Term) *Term { return f.Le(x, y) }); ok {
+		return r
 	}
 	if lo1, hi1, ok1 := f.Range(a); ok1 {
 		if lo2, hi2, ok2 := f.Range(b); ok2 {
@@ -809,17 +866,21 @@ func (f *Factory) WrapU(w int, t *Term) *Term {
 	if t.Op == OConst {
 		return f.Int(new(big.Int).Mod(t.K, m))
 	}
+	if t.Op == OIte && constLeaves(t, 0) {
+		return f.mapLeaves(t, func(l *Term) *Term { return f.WrapU(w, l) })
+	}
 	if lo, hi, ok := f.Range(t); ok {
 		if lo.Sign() >= 0 && hi.Cmp(m) < 0 {
 			return t
 		}
 		// one conditional subtraction / addition is enough
 		m2 := new(big.Int).Lsh(m, 1)
+		mm1 := new(big.Int).Sub(m, big.NewInt(1))
 		if lo.Sign() >= 0 && hi.Cmp(m2) < 0 {
-			return f.Ite(f.Ge(t, f.Int(m)), f.Sub(t, f.Int(m)), t)
+			return f.SetRange(f.Ite(f.Ge(t, f.Int(m)), f.Sub(t, f.Int(m)), t), big.NewInt(0), mm1)
 		}
 		if lo.Cmp(new(big.Int).Neg(m)) >= 0 && hi.Cmp(m) < 0 {
-			return f.Ite(f.Lt(t, f.I64(0)), f.Add(t, f.Int(m)), t)
+			return f.SetRange(f.Ite(f.Lt(t, f.I64(0)), f.Add(t, f.Int(m)), t), big.NewInt(0), mm1)
 		}
 	}
 	return f.Mod(t, f.Int(m))
@@ -834,6 +895,9 @@ func (f *Factory) WrapS(w int, t *Term) *Term {
 		r := new(big.Int).Mod(new(big.Int).Add(t.K, h), m)
 		return f.Int(r.Sub(r, h))
 	}
+	if t.Op == OIte && constLeaves(t, 0) {
+		return f.mapLeaves(t, func(l *Term) *Term { return f.WrapS(w, l) })
+	}
 	if lo, hi, ok := f.Range(t); ok {
 		if lo.Cmp(nh) >= 0 && hi.Cmp(h) < 0 {
 			return t
@@ -841,13 +905,65 @@ func (f *Factory) WrapS(w int, t *Term) *Term {
 		lim := new(big.Int).Add(h, m)
 		nlim := new(big.Int).Neg(lim)
 		if lo.Cmp(nlim) >= 0 && hi.Cmp(lim) < 0 {
-			return f.Ite(f.Ge(t, f.Int(h)), f.Sub(t, f.Int(m)), f.Ite(f.Lt(t, f.Int(nh)), f.Add(t, f.Int(m)), t))
+			return f.SetRange(f.Ite(f.Ge(t, f.Int(h)), f.Sub(t, f.Int(m)), f.Ite(f.Lt(t, f.Int(nh)), f.Add(t, f.Int(m)), t)), nh, new(big.Int).Sub(h, big.NewInt(1)))
 		}
 	}
 	return f.Sub(f.Mod(f.Add(t, f.Int(h)), f.Int(m)), f.Int(h))
 }
 
+// SplitWord decomposes s (known to lie in [0, 2^(w+hbits))) as lo + 2^w*hi with lo in [0,2^w), hi in [0,2^hbits):
+// auxiliary variables with a linear defining equation (no case split for the solver).
+func (f *Factory) SplitWord(s *Term, w, hbits int, tag string) (lo, hi *Term) {
+	m := pow2(w)
+	if s.Op == OConst {
+		q, r := new(big.Int), new(big.Int)
+		q.DivMod(s.K, m, r)
+		return f.Int(r), f.Int(q)
+	}
+	l, h, ok := f.Range(s)
+	if ok && l.Sign() >= 0 && h.Cmp(m) < 0 {
+		return s, f.I64(0)
+	}
+	key := fmt.Sprintf("split|%d|%d|%d", s.id, w, hbits)
+	if c, ok := f.defCache[key]; ok {
+		return c[0], c[1]
+	}
+	if !ok || l.Sign() < 0 || h.Cmp(pow2(w+hbits)) >= 0 {
+		// not provably in range: fall back to div/mod terms (always correct)
+		lo, hi = f.Mod(s, f.Int(m)), f.Div(s, f.Int(m))
+		f.defCache[key] = []*Term{lo, hi}
+		return
+	}
+	f.fresh++
+	lo = f.RangedVar(fmt.Sprintf("%s!lo!%d", tag, f.fresh), big.NewInt(0), new(big.Int).Sub(m, big.NewInt(1)))
+	hiMax := new(big.Int).Div(h, m)
+	hi = f.RangedVar(fmt.Sprintf("%s!hi!%d", tag, f.fresh), big.NewInt(0), hiMax)
+	fact := f.Eq(s, f.Add(lo, f.Mul(f.Int(m), hi)))
+	f.AddDef(lo, fact)
+	f.AddDef(hi, fact)
+	f.defCache[key] = []*Term{lo, hi}
+	return
+}
+
 // ---------- range analysis (sound over-approximation) ----------
+
+// SetRange records a range that the caller has established for this very term (tightening only).
+func (f *Factory) SetRange(t *Term, lo, hi *big.Int) *Term {
+	if t.S != SInt || t.Op == OConst {
+		return t
+	}
+	l0, h0, ok := f.Range(t)
+	if ok {
+		if l0.Cmp(lo) > 0 {
+			lo = l0
+		}
+		if h0.Cmp(hi) < 0 {
+			hi = h0
+		}
+	}
+	t.rng, t.lo, t.hi = true, lo, hi
+	return t
+}
 
 func (f *Factory) Range(t *Term) (lo, hi *big.Int, ok bool) {
 	if t.S != SInt {
@@ -1010,7 +1126,7 @@ func (f *Factory) bitop(op Op, w int, a, b *Term) *Term {
 	max := new(big.Int).Sub(pow2(w), big.NewInt(1))
 	// ite distribution when one side is ite over constants (mask idiom)
 	for i := 0; i < 2; i++ {
-		if a.Op == OIte && a.Args[1].Op == OConst && a.Args[2].Op == OConst {
+		if a.Op == OIte && (a.Args[1].Op == OConst || a.Args[2].Op == OConst) {
 			return f.Ite(a.Args[0], f.bitop(op, w, a.Args[1], b), f.bitop(op, w, a.Args[2], b))
 		}
 		a, b = b, a
